@@ -10,12 +10,17 @@
      mods     _ModuleCache.module_map: path -> PFile (content at parse time) | PPkg (child cache)
      cells    the concluded ImportedModule.pymodule cells: (importing module, imported name) -> target
      flist    _FileListCacher.files (None = not computed)
-     watched  FilteredResourceObserver.resources of PyCore.observer: path -> stored indicator, abstracted
-              to WNone (indicator None: "did not exist"), WCur (stored indicator equals the current
-              (mtime, size) of the resource), WStale (stored indicator differs from the current one or the
-              resource is gone).  External modifications turn WCur into WStale: this is DESIGN's
-              [indicator_sound] assumption, built into [xstep] and checked on every correspondence case
-              (the harness bumps mtimes after every external modification).
+     watched  FilteredResourceObserver.resources of PyCore.observer: path -> stored indicator.  rope's indicator
+              is the PAIR (modification time, size) (ChangeIndicator.get_indicator); the model keeps its
+              quotient: WNone (indicator None: "did not exist"), WCur (both components of the stored pair
+              equal the resource's current ones), WStale (a component differs, or the resource is gone).
+              A modification behind rope's back turns WCur into WStale ([xstep]): a rewrite of a file changes
+              the mtime, or the size, or both; adding, removing or renaming an entry changes the folder's
+              mtime (the folder's size does not tell: that much is rope's design).  This is DESIGN's
+              [indicator_sound] assumption; the harness realises each shape (new mtime + new size, OLD mtime +
+              new size as left by cp -p / rsync -t / two writes in one timestamp tick, new mtime + old size)
+              and computes the reference pair itself when abstracting the live watched set, so a weaker
+              indicator in the code shows up both as a correspondence mismatch and as a failing input.
      cfg      the project preference automatic_soa, and which of the two proposed fixes the code has
               (proposed_fixes/C13-*.diff, now repo commits d932e8e / b19aaa7): both true = the current code
               ([code_cfg]), both false = the tree as found, kept to document the two fixed defects
@@ -223,8 +228,8 @@ Definition xdisk (d : disk) (x : xop) : disk :=
   | XMove p q => move_tree p q d
   end.
 
-(* the resources whose (mtime, size) indicator changes (POSIX: a folder's mtime changes when an entry is
-   added, removed or renamed in it; the harness additionally bumps every touched mtime) *)
+(* the resources of which at least one component of the (mtime, size) indicator changes (a rewritten file:
+   mtime or size; POSIX: a folder's mtime changes when an entry is added, removed or renamed in it) *)
 Definition xtouch (x : xop) (r : path) : bool :=
   match x with
   | XWrite p _ => bool_decide (r = p)
